@@ -298,6 +298,54 @@ pub fn emit_negatives(seed: u64, n: usize) -> Vec<Neg> {
     out
 }
 
+/// Bare programs for the expansion scan: worlds and queries with empty bodies and nothing
+/// else (no formatting macros), so that every `unsafe` token in rustc's expanded output
+/// would have to come from gecs's macros.
+pub fn emit_bare(seed: u64, file: usize, ncases: usize) -> String {
+    let mut rng = Rng::new(seed, 8000 + file as u64);
+    let mut src = String::new();
+    writeln!(src, "#![forbid(unsafe_code)]\n#![allow(unused, unexpected_cfgs)]\nuse gecs::prelude::*;").unwrap();
+    for c in 0..ncases {
+        let opts = GenOpts { use_cfg: rng.chance(2, 3), feature_bits: None, allow_id_errors: false, max_archs: 5 };
+        let mut w = gen_world(&mut rng, &opts);
+        w.name = Some(format!("Wb{c}"));
+        let r = ref_world(&w).expect("legal");
+        writeln!(src, "pub mod bare_{c} {{\nuse super::*;\n{}\necs_world! {{\n{}}}\npub fn run(world: &mut Wb{c}, key: EntityAny) {{", pool_structs(), world_body_src(&w)).unwrap();
+        for _ in 0..4 {
+            let mut q;
+            let mut tries = 0;
+            loop {
+                q = gen_query(&mut rng, &w, &opts, true);
+                tries += 1;
+                if ref_match(&r, &q).is_ok() {
+                    break;
+                }
+                if tries > 50 {
+                    q = GQuery { params: vec![], preds: vec![] };
+                    break;
+                }
+            }
+            // closure parameters are unused: prefix names to keep the output free of warnings-as-noise
+            let params = params_src(&q);
+            for mac in MACS {
+                let ret = if mac == Mac::IterDestroy { "EcsStepDestroy::Continue" } else { "" };
+                match mac {
+                    Mac::Find | Mac::FindBorrow => writeln!(src, "let _ = {}!(world, key, |{params}| {{ }});", mac.name()).unwrap(),
+                    _ => writeln!(src, "{}!(world, |{params}| {{ {ret} }});", mac.name()).unwrap(),
+                }
+            }
+            if let Some(a) = r.first() {
+                if let Some(cn) = a.comps.first() {
+                    writeln!(src, "let _ = ecs_component_id!({}, {});", cn.0, a.name).unwrap();
+                }
+            }
+        }
+        writeln!(src, "}}\n}}").unwrap();
+    }
+    writeln!(src, "fn main() {{}}").unwrap();
+    src
+}
+
 pub fn write_all(seed: u64, outdir: &str, files: usize, cases: usize, negs: usize, feature_bits: Option<u8>) -> std::io::Result<()> {
     std::fs::create_dir_all(outdir)?;
     for f in 0..files {
@@ -310,5 +358,13 @@ pub fn write_all(seed: u64, outdir: &str, files: usize, cases: usize, negs: usiz
         std::fs::write(format!("{outdir}/neg_{i}.expect"), format!("{}\n{}\n", n.class, n.expect.map(|e| format!("ERR:{e}")).unwrap_or("OK".into())))?;
     }
     let _ = (twin_world, twin_query);
+    Ok(())
+}
+
+pub fn write_bare(seed: u64, outdir: &str, files: usize, cases: usize) -> std::io::Result<()> {
+    std::fs::create_dir_all(outdir)?;
+    for f in 0..files {
+        std::fs::write(format!("{outdir}/bare_{f}.rs"), emit_bare(seed, f, cases))?;
+    }
     Ok(())
 }
